@@ -29,6 +29,7 @@ def run(prog, rep):
     rep.part(estimator, prog, rep)
     rep.part(wlsq_error, prog, rep)
     rep.part(fit_lsq, prog, rep)
+    rep.part(stable, prog, rep)
     rep.expect_min("C13.zeros", 2)
     rep.expect_min("C13.formula", 4)
     rep.expect_min("C13.norm", 1)
@@ -54,9 +55,47 @@ def filtered(name, keyname="x"):
 X, PP, W = ("sym", "X"), ("sym", "P"), ("sym", "W")
 
 
+def _log1p_as_log(t):
+    """np.log1p(-y) is ln(1 - y): rewritten bottom-up so that the formula rules meet one spelling (which spelling is used is the
+    business of C13.formula :stable)"""
+    if isinstance(t, frozenset):
+        return frozenset(_log1p_as_log(x) for x in t)
+    if not isinstance(t, tuple) or not t:
+        return t
+    if not isinstance(t[0], str):
+        return tuple(_log1p_as_log(x) for x in t)
+    if t[0] == "call" and t[1] == G("numpy.log1p") and len(t[2]) == 1 and not t[3]:
+        a = _log1p_as_log(t[2][0])
+        if a[0] == "neg":
+            return ("call", G("numpy.log"), (("bin", "-", ("const", 1), a[1]),), ())
+        return ("call", G("numpy.log"), (("bin", "+", ("const", 1), a),), ())
+    if t[0] in ("const", "param", "global", "self", "unknown"):
+        return t
+    return tuple(_log1p_as_log(x) if isinstance(x, (tuple, frozenset)) else x for x in t)
+
+
 def abstract(t):
     m = {filtered("x"): X, filtered("p"): PP, filtered("w"): W}
-    return subst(t, m)
+    return _log1p_as_log(subst(t, m))
+
+
+def stable(prog, rep):
+    """ln(1 - p**(1/delta)) loses every digit once p**(1/delta) < 1.1e-16 (first plotting position, small delta): 1 - y rounds to 1,
+    ln gives 0, log10 gives -inf and all weighted means become nan; np.log1p(-y) has no such barrier."""
+    for name in ("_estimate_alpha_beta", "_wlsq_error"):
+        fn = prog.func(f"{EW}.{name}")
+        b = builder(prog, fn, inline=False)
+        bad = []
+        for st in cfg_of(fn).all_stmts():
+            for n in ast.walk(st) if isinstance(st, (ast.Assign, ast.Return, ast.Expr)) else []:
+                if isinstance(n, ast.Call):
+                    t = b.term(n, st)
+                    if t[0] == "call" and t[1] in (G("numpy.log"), G("math.log")) and len(t[2]) == 1 and t[2][0][0] == "bin" and t[2][0][1] == "-" \
+                            and t[2][0][2] == ("const", 1) and any(w[0] == "bin" and w[1] == "**" for w in walk(t[2][0][3])):
+                        bad.append(st)
+        rep.check(not bad, "C13.formula", f"{fn.qualname}:stable", fn.where(bad[0]) if bad else fn.where(), "ln(1 - p**(1/delta)) is computed as log1p(-p**(1/delta))",
+                  "np.log(1 - p ** (1 / delta)): for the first plotting positions and a small delta the subtraction rounds to exactly 1, the logarithm is 0 and its log10 "
+                  "-inf - EW(f_delta=0.2).fit(x, method='lsq') with n = 1000 returns alpha = beta = nan, and a free delta stops at that barrier; use np.log1p(-p ** (1 / delta))")
 
 
 def C(fn, *args):
